@@ -141,7 +141,7 @@ class C06(Property):
                                  (1, "copyadd"), (1, "copymul"),
                                  (2, "zeronum"), (2, "cascade"),
                                  (1, "parallel"), (2, "divterm"),
-                                 (2, "sharedhub")])
+                                 (2, "sharedhub"), (1, "linearize")])
     if shape == "zeronum":
       # free response: empty numerator, feedback only (needs a delay term)
       tree = single()
@@ -209,6 +209,8 @@ class C06(Property):
         tree = {"op": wrap, "a": tree}
         if wrap == "pow":
           tree["n"] = W.pick("hexp", [2, 3])
+    elif shape == "linearize":
+      tree = {"op": "linearize", "a": single()}
     elif shape in ("cascade", "parallel"):
       tree = {"op": shape, "a": single(), "b": single()}
     elif shape == "divterm":
@@ -467,6 +469,8 @@ class C06(Property):
         return rec(t["a"]) / rec(t["b"])
       if op == "pow":
         return rec(t["a"]) ** t["n"]
+      if op == "linearize":
+        return rec(t["a"]).linearize()    # integer delays: the same filter
       if op == "cascade":
         return self.lf.CascadeFilter([rec(t["a"]), rec(t["b"])])
       if op == "parallel":
@@ -523,6 +527,8 @@ class C06(Property):
     if op == "neg":
       n1, d1 = self.spec_polys(t["a"], n)
       return pscale(-1, n1), d1
+    if op == "linearize":
+      return self.spec_polys(t["a"], n)
     if op == "div":
       n1, d1 = self.spec_polys(t["a"], n)
       n2, d2 = self.spec_polys(t["b"], n)
